@@ -24,11 +24,12 @@ VARIABLES tid, l
 tvars == <<tid, l>>
 T == Traces[tid]
 
-Kinds == [pt |-> 3, limit |-> 3, gen |-> 2]
+Kinds == [pt |-> 3, limit |-> 3, gen |-> 2, honey |-> 2]
 NClauses == Kinds[T.kind]
 ClauseName(k) ==
   CASE T.kind = "pt"    -> <<"C04_count_is_lines", "C04_product", "C04_same_probability">>[k]
     [] T.kind = "limit" -> <<"C09_length", "C09_prefix", "C09_stdout_is_guess_stream">>[k]
+    [] T.kind = "honey" -> <<"C16_word_is_the_chosen_derivation", "C16_word_in_the_language">>[k]
     [] OTHER            -> <<"gen_lines", "gen_count">>[k]
 (* only the clause asked for is evaluated *)
 ClauseHolds(k) ==
@@ -41,6 +42,8 @@ ClauseHolds(k) ==
     [] T.kind = "limit" /\ k = 3 -> T.hasout => T.stdout = T.lines
     [] T.kind = "gen" /\ k = 1 -> LET r == CreateGuesses(T.groups, T.limit) IN r.lines = T.lines /\ r.n = T.count
     [] T.kind = "gen" /\ k = 2 -> TRUE
+    [] T.kind = "honey" /\ k = 1 -> Derive(T.groups, T.ch, Len(T.groups)) = T.line
+    [] T.kind = "honey" /\ k = 2 -> T.line \in DOMAIN Expected(T.groups)
 
 TInit == tid \in 1..NT /\ l = 1
 TStep == /\ l <= NClauses /\ (ClauseHolds(l) = TRUE) /\ l' = l + 1 /\ UNCHANGED tid
